@@ -220,7 +220,7 @@ def run(model, rep, tier):
                   f"the TSIG template names algorithm `{alg}` but its placeholder MAC is sized by `{src(sizes[0].slice) if sizes else '?'}`: for a key of another algorithm the TSIG reserve and the padding "
                   "arithmetic use the wrong MAC length (TooBig escapes near the limit; the padded length is no multiple of the block)", stmt="placeholder-mac")
     mr = model.func("dns.message.make_response")
-    ue = [c for c in ast.walk(mr.node) if isinstance(c, ast.Call) and src(c.func) == "response.use_edns"]
+    ue = [c for c in ast.walk(mr.node) if isinstance(c, ast.Call) and isinstance(c.func, ast.Attribute) and c.func.attr == "use_edns"]
     uef = model.func("dns.message.Message.use_edns")
     ps = [p_ for p_ in uef.params() if p_ != "self"]
     if len(ue) != 1 or "request_payload" not in ps:
